@@ -58,7 +58,7 @@ def run(tier):
     tables = probe(c)
     nmsgs = tables["n_msgs"]
     c.extra["probed_tables"] = tables
-    depth = 4 if c.quick() else 6   # the property's bound on fmt %w layers is 4
+    depth = 4 if c.quick() else 8   # the property's bound on fmt %w layers is 4
 
     # ---- TLC: emission run (type invariants only: must pass) and the table invariants, side by side
     emit = c.path("emit", "errs.ndjson")
@@ -79,18 +79,19 @@ def run(tier):
     c.exhaustive = True
 
     # ---- code -> spec
-    ntr = 20000 if c.quick() else 150000
-    nseeds = 1 if c.quick() else 3
+    ntr = 20000 if c.quick() else 300000
+    nseeds = 1 if c.quick() else 6
+    maxd = 6 if c.quick() else 10
     cfg = c.write_cfg("errs", "ErrTrace", postcondition="Accepted")
 
     def drive(k):
         trace = c.path("trace", "errs-%d.ndjson" % k)
-        c.run_vh(["drive", "errs", "-seed", c.seed + 7919 * k, "-n", ntr, "-out", trace, "-x", "maxdepth=6"])
+        c.run_vh(["drive", "errs", "-seed", c.seed + 7919 * k, "-n", ntr, "-out", trace, "-x", "maxdepth=%d" % maxd])
         ok, at, _ = c.validate_trace("errs", "ErrTrace", cfg, trace, timeout=1200, label="ErrTrace-%d" % k)
         return ok, at, open(trace).read().splitlines()
 
     lines = None
-    for ok, at, ls in parallel([lambda k=k: drive(k) for k in range(nseeds)], max_workers=3):
+    for ok, at, ls in parallel([lambda k=k: drive(k) for k in range(nseeds)], max_workers=6):
         lines = lines or ls
         if ok:
             c.traces_validated += ntr
@@ -115,8 +116,8 @@ def run(tier):
     return c.finish(rule="one behaviour per edge of the ErrMC state graph on the tables probed from the compiled library: "
                          "12 classes x %d message texts x wrap depth 0..%d x (no object | object embedded below layer 0..depth) "
                          "x (plain | GRPCWrap | GRPCWrap twice), plus 17 codes x %d texts through FromGRPCError, every step "
-                         "replayed with the real fmt.Errorf/EmbedObject/GRPCWrap; plus %d recorded random chains (depth 0..6, "
-                         "random texts) validated against the contract" % (nmsgs, depth, nmsgs, ntr))
+                         "replayed with the real fmt.Errorf/EmbedObject/GRPCWrap; plus %d recorded random chains (depth 0..%d, "
+                         "random texts) validated against the contract" % (nmsgs, depth, nmsgs, ntr, maxd))
 
 
 def summarize(line):
